@@ -48,7 +48,7 @@ PROVED_FAMILIES = ['plurality', 'ha_d_hondt', 'ha_sainte_lague', 'ha_imperiali',
                    'positional_borda', 'positional_borda0', 'positional_dowdall', 'positional_geometric', 'positional_modified_borda',
                    'positional_fixed_top3', 'approval_av', 'approval_sav',
                    'condorcet_kemeny_young', 'condorcet_winner', 'smith_set', 'schwartz_set',
-                   'stv_gregory_hare', 'stv_gregory_droop', 'stv_dist_gregory_droop',
+                   'stv_gregory_hare', 'stv_gregory_droop', 'stv_dist_gregory_droop', 'stv_gregory_hare_strict', 'stv_gregory_imperiali',
                    'rel_threshold_5pc', 'rel_threshold_5pc_decimal', 'rel_threshold_5pc_float', 'rel_threshold_third', 'abs_threshold_2', 'openlist_jump_5pc', 'openlist_quota_precedence',
                    'openlist_tiebreaker_plurality', 'threshold_alternative', 'aux_input_order',
                    'lr_imperiali_subtract', 'lr_hagenbach_bischoff_subtract', 'qd_imperiali_subtract',
@@ -58,7 +58,8 @@ POSITIONAL_CFG = {'positional_borda': {'s': 'Borda', 'base': 1}, 'positional_bor
               'positional_dowdall': {'s': 'Dowdall'}, 'positional_geometric': {'s': 'Geometric', 'base': 2},
               'positional_modified_borda': {'s': 'ModifiedBorda'}, 'positional_fixed_top3': {'s': 'FixedTop', 'top': 3}}
 STV = {'stv_gregory_hare': ('hare', 'selector'), 'stv_gregory_droop': ('droop', 'selector'),
-       'stv_dist_gregory_droop': ('droop', 'distributor')}
+       'stv_dist_gregory_droop': ('droop', 'distributor'), 'stv_gregory_hare_strict': ('hare', 'selector'),
+       'stv_gregory_imperiali': ('imperiali', 'selector')}
 THRESHOLDS = {'rel_threshold_5pc': ('rel_threshold', '1/20', True), 'rel_threshold_5pc_decimal': ('rel_threshold', '1/20', True),
               'rel_threshold_5pc_float': ('rel_threshold', '3602879701896397/72057594037927936', True), 'rel_threshold_third': ('rel_threshold', '1/3', False),
               'abs_threshold_2': ('abs_threshold', '2', True)}
@@ -217,7 +218,7 @@ def _bookkeeping():
     except Exception:
         pass
 _bookkeeping()
-NAME_MODES = ['str', 'int0', 'empty0', 'person']
+NAME_MODES = ['str', 'int0', 'empty0', 'person', 'tuple']
 REQUIRED_COUNTERS = ['sel', 'dist', 'seatless', 'tie_in_result', 'modelled', 'refusal', 'few_votes', 'all_equal', 'truncation_empties', 'rotation', 'score_tied']
 RULE = ('every evaluator family built from the public selector/distributor classes of votelib.evaluate.* (shared table harness/families.py + the local '
         'list in this module: open list, list tie-breaker, auxiliary selectors, AlternativeThresholds, the subtract over-award policy, score voting with '
@@ -285,6 +286,19 @@ def generate(rng, tier):
             for t in range(12 if tier == 'quick' else 120):
                 prof = fam_mod.gen_ranked_shared_only(rng, 4)
                 yield {'op': 'shape', 'family': f.name, 'prof': prof, 'n': rng.choice([3, 4, 4]), '_tags': [f.kind, 'stv_shared_only_candidate']}
+    # directed: a quota below Droop (imperiali): MORE candidates reach the quota than seats remain, with distinct surpluses
+    for f in F:
+        if f.name == 'stv_gregory_imperiali':
+            for t in range(16 if tier == 'quick' else 160):
+                n = rng.choice([1, 2, 2, 3])
+                m = n + rng.randint(1, 2)
+                base = rng.randint(20, 30)
+                vals = sorted({base + 2 * i + rng.randint(0, 1) for i in range(m)}, reverse=True)
+                prof = [[[i], str(v)] for i, v in enumerate(vals)]
+                if rng.random() < 0.5:
+                    prof.append([[len(vals), 0], str(rng.randint(1, 6))])
+                rng.shuffle(prof)
+                yield {'op': 'shape', 'family': f.name, 'prof': prof, 'n': n, '_tags': [f.kind, 'stv_more_over_quota_than_seats']}
     # directed: a full rotation (everybody tied everywhere) for all but one seat - the multi-seat tie branches of every ranked family
     for f in F:
         if f.vtype in ('ranked', 'ranked_noshared') and f.n_seats:
@@ -440,8 +454,8 @@ def model_line(case):
         quota, form = STV[f]
         votes = [[[[NAMES.i(x) for x in frozenset(NAMES.n(i) for i in it)] if isinstance(it, list) else it for it in b], w]
                  for b, w in case['prof']]       # shared ranks in the iteration order of the frozenset the implementation sees
-        return {'op': 'stv_eval', 'form': form, 'method': 'gregory', 'quota': quota, 'accept_equal': True, 'mandatory': False,
-                'step': -1, 'n': case['n'], 'prev': [], 'max': [], 'draws': [], 'votes': votes}
+        return {'op': 'stv_eval', 'form': form, 'method': 'gregory', 'quota': quota, 'accept_equal': not f.endswith('_strict'),
+                'mandatory': False, 'step': -1, 'n': case['n'], 'prev': [], 'max': [], 'draws': [], 'votes': votes}
     if f in THRESHOLDS:
         op, t, eq = THRESHOLDS[f]
         return {'op': op, 'votes': case['prof'], 'threshold': t, 'accept_equal': eq}
